@@ -28,11 +28,14 @@ TIMEOUT = {"quick": 600, "thorough": 7200}
 
 
 def _post(snap, res, graph, left, right, *, conditions=None, cutoff=None):
-    if cutoff is not None:
-        kernel.count("C20:cutoff-call-skipped")
+    ref = RG.from_nx(graph)
+    if cutoff is not None and cutoff < len(ref.V) - 1:
+        kernel.count("C20:cutoff-call-skipped")  # a real path-length limit changes the question
+        return
+    if conditions is not None and not isinstance(conditions, (set, frozenset, list, tuple)):
+        kernel.count("C20:one-shot-conditions-not-judged")
         return
     C = set(conditions or ())
-    ref = RG.from_nx(graph)
     if left == right or left in C or right in C:
         kernel.count("C20:degenerate-query")
         return
@@ -74,8 +77,14 @@ def query(ctx, g, gd, a, b, C, gkey, both=True):
 
     kernel.LOG.reset_case({"graph": gd, "a": a, "b": b, "C": sorted(C)})
     Cv = {Variable(c) for c in C}
+    # the conditions in every form the signature admits (and None for the empty set); a non-binding cutoff sometimes
+    k = sum(map(ord, gkey + a + b + "".join(sorted(C))))
+    form = [set, frozenset, list, tuple][k % 4]
+    kw = {"conditions": (None if not Cv and k % 3 == 0 else form(sorted(Cv, key=str)))}
+    if k % 5 == 0:
+        kw["cutoff"] = len(gd["nodes"]) + 1
     try:
-        r1 = are_sigma_separated(g, Variable(a), Variable(b), conditions=Cv)
+        r1 = are_sigma_separated(g, Variable(a), Variable(b), **kw)
     except Exception as e:  # noqa: BLE001
         kernel.violation(PROP, "total", f"are_sigma_separated raised {type(e).__name__}: {e}")
         return
